@@ -19,7 +19,7 @@ RULE = (
 REQUIRED = ["get_rc_checked", "idempotence_checked", "extract_k_checked", "chain_checked", "core_flag_checked",
             "renumbering_relation_checked", "hh_bond_cases", "half_order_changes", "product_only_bonds",
             "contexts_strictly_growing", "disconnected_centres", "derived_graph_contexts_checked", "hh_bond_with_both_ends_in_other_centre_bonds",
-            "inplace_edit_contexts_checked", "one_sided_atom_pairs", "synthetic_its/construct(store=True)"]
+            "inplace_edit_contexts_checked", "one_sided_atom_pairs", "synthetic_its/construct(store=True)", "custom_key_extraction_checked"]
 ASSUMPTIONS = [
     "ITS graphs built with default flags (ignore_aromaticity=False): standard_order is the plain difference",
     "centre node attributes compared: element, charge, typesGH, atom_map (the documented selection)",
@@ -78,6 +78,28 @@ def check_rc(ctx, its, wit):
         ctx.violation("rc-not-idempotent", wit, "extracting the centre of a centre changes it")
     if WG.gdigest(its) != d0:
         ctx.violation("input-mutated", wit, "get_rc modified the ITS")
+    # the same extraction on a copy whose bond attributes live under other names (bond_key / standard_key arguments)
+    if ctx.rng.random() < 0.25:
+        alt = nx.Graph()
+        alt.add_nodes_from((n, dict(d)) for n, d in its.nodes(data=True))
+        for u, v, d in its.edges(data=True):
+            dd = {k: x for k, x in d.items() if k not in ("order", "standard_order")}
+            dd["bo"], dd["so"] = d.get("order"), d.get("standard_order")
+            alt.add_edge(u, v, **dd)
+        try:
+            rca = get_rc(alt, bond_key="bo", standard_key="so")
+            rca2 = get_rc(rca, bond_key="bo", standard_key="so")
+        except Exception as e:
+            ctx.violation("rc-custom-keys", wit, f"get_rc(bond_key='bo', standard_key='so') raises {type(e).__name__}: {e}")
+            return rc
+        ctx.count("custom_key_extraction_checked")
+        ea = {frozenset(e): (rca.edges[e].get("bo"), rca.edges[e].get("so")) for e in rca.edges}
+        want_e = {e: (d.get("order"), d.get("standard_order")) for e, d in edges.items()}
+        if set(rca.nodes) != nodes or ea != want_e:
+            ctx.violation("rc-custom-keys", wit, f"with bond_key/standard_key renamed the centre has bonds {sorted(map(sorted, ea))[:6]} labelled "
+                          f"{list(ea.values())[:3]}; expected {sorted(map(sorted, want_e))[:6]} labelled {list(want_e.values())[:3]}")
+        elif set(rca2.nodes) != set(rca.nodes) or {frozenset(e) for e in rca2.edges} != set(ea):
+            ctx.violation("rc-not-idempotent", {**wit, "custom_keys": True}, "with renamed bond keys, extracting the centre of a centre changes it")
     return rc
 
 
